@@ -42,10 +42,15 @@ def stops (cfg : Cfg) (r : Rule) : Bool := (cfg.out r.name).stop
 def singletons (l : List Rule) : List (List Rule) := l.map ([·])
 def parStage (l : List Rule) : List (List Rule) := if l.isEmpty then [] else [l]
 
+/-- Does execution of a sorted stage end after rule `r`?  `haltOnFail`: stop-on-error policy;
+    `useStop`: the variant reads the stop tag. -/
+def seqStop (cfg : Cfg) (haltOnFail useStop : Bool) (r : Rule) : Bool :=
+  (haltOnFail && fails cfg r) || (useStop && stops cfg r)
+
 /-- Sorted family: one rule at a time in `order`; stop at the first failing rule under
     stop-on-error, and after the rule that sets the stop tag when the variant has one. -/
 def sortFamily (cfg : Cfg) (order : List Rule) (b useStop : Bool) : List (List Rule) :=
-  singletons (takeThrough (fun r => (!b && fails cfg r) || (useStop && stops cfg r)) order)
+  singletons (takeThrough (seqStop cfg (!b) useStop) order)
 
 /-- Mix: the first rule alone; the others concurrently iff it neither failed nor set the tag. -/
 def mixFamily (cfg : Cfg) (order : List Rule) (useStop : Bool) : List (List Rule) :=
